@@ -7,6 +7,36 @@ HERE = os.path.dirname(os.path.dirname(os.path.abspath(__file__)))
 BASELINE = "cd /repo && /venv/bin/python -m pytest -ra -q -p no:cacheprovider --timeout=900 --continue-on-collection-errors"
 
 CHECKS = {
+    'C04': dict(
+        text='Lean theorems on the NameAssigner model: a binding that may not be renamed keeps its name for every input; every name given '
+             'to a module-level binding carries the underscore prefix when rename_globals is off, and is otherwise a generator-table '
+             'name. Tie: assigner correspondence on dumped bindings. Which bindings the binder pins (class-level names, dunder names, '
+             'never-bound names, keyword-passable parameters) and which AST fields renaming writes are decided by an oracle on the real '
+             'code that aligns input and output trees and demands identical spelling at every interface position.',
+        note='PARTIAL: bind_names/resolve_names pinning rules and Binding.rename are not modelled in Lean. Reading: first parameter of '
+             'undecorated/@classmethod methods, *args/**kwargs and positional-only parameters are the documented reflective views.',
+        technique='Lean 4 proof (assigner model) + model/implementation correspondence + interface-position oracle on aligned trees',
+        ref='§6 C04'),
+    'C06': dict(
+        text='Lean theorems: the namespace chosen for a hoisted alias is a prefix of (encloses) the namespace path of every use; the '
+             'assignment is inserted after docstring / from __future__ statements only and preserves the order of all other statements; '
+             'an alias name differs from the final name of every binding whose scope it shares (no_new_clash); an un-hoisted literal '
+             'introduces no name. Tie: placement model compared with the namespace the real place_bindings chose; assigner correspondence. '
+             'Collection rules (no hoisting from patterns, __slots__, f-string text, docstring position), single assignment and strict '
+             'value identity are decided by the alpha-equivalence oracle on literal templates x 11 literal kinds and generated programs.',
+        note='PARTIAL: the HoistLiterals visitor (which literals are collected, the HoistedValue key) is not modelled in Lean.',
+        technique='Lean 4 proof (prefix/dominance and insertion lemmas, assigner invariant) + correspondence + alpha-equivalence oracle',
+        ref='§6 C06'),
+    'C10': dict(
+        text='Lean theorems: applyPreserve (model of allow_rename_locals/globals) pins every listed binding, and a pinned binding is never '
+             'renamed by the assigner, for every program, list and option; the generated pipeline shows the lists reaching these stages. '
+             'Oracle on the real code: random preserve lists (also a bare string, builtins, names bound in several scopes), literal '
+             '__all__ lists in three statement forms, the awslambda entrypoint: listed names keep their spelling at every binding and '
+             'reference and the output stays alpha-equivalent to the input.',
+        note='PARTIAL: find__all__ and the real allow_rename_* traversal are not modelled (applyPreserve is a hand model without correspondence '
+             'of its own; its effect is observed through the oracle). CLI list splitting is C13.',
+        technique='Lean 4 proof (pinning + assigner model) + preserve-list oracle on aligned trees',
+        ref='§6 C10'),
     'C09': dict(
         text='Lean: the top-level shape of minify() (stages, conditions, order) regenerated from the source equals the modelled pipeline, '
              'in which the taint block clears both renaming flags and the name-introducing stages (literal hoisting, exception-bracket '
